@@ -54,4 +54,29 @@ TEXTS = {
   "note": BASE_NOTE,
   "technique": "closure/upvar counter discipline and loop-shape analysis on MIR, guard dominance, enum shape comparison",
   "engine": "E-STRUCT"},
+ "C16": {
+  "level": "Decides: every PAIRS access is keyed by the registry key function over [to_raw(a0), to_raw(a1)] (to_raw re-verified to preserve identity) or by TMP.pair_key written from it; "
+           "the key is symmetric (both assets sorted by a total order on (bytes, kind)) and injective (kind tags with a verified two-valued tag function, length-prefixed first identifier; "
+           "every component taken from the sorted copy); same-asset and already-registered guards make creation fail; decimals are queried per asset (native: factory allow-list, "
+           "cw20: TokenInfo) with failure => Err and flow unchanged into TMP and the pair's InstantiateMsg; the reply registers (key, assets, decimals) from TMP and "
+           "(LP token, requirements, commission) from the self-description queried at the reply address; commission_rate > 1 is rejected.",
+  "note": BASE_NOTE + " addr_canonicalize injective; identifiers < 2^32 bytes.",
+  "technique": "component-wise encoding analysis of the key function on MIR (fixed/variable width, length-prefix rule) + provenance of registry records",
+  "engine": "E-STRUCT"},
+ "C17": {
+  "level": "Decides for any number of pairs: the decimals handler's loop iterates a collection that originates (through helpers) from an unbounded, unfiltered PAIRS scan; "
+           "the page-limited reader is reachable only from the Pairs query; inside the loop the record/message for position i are produced exactly under "
+           "`asset_infos[i] is native and its denom == denom` (any extra condition is reported), carry [i: new, 1-i: stored], go to that record's contract; the allow-list entry is "
+           "written under the key the denom query reads on every success path; the pair applies the array exactly when one of its native denoms matches and preserves the rest.",
+  "note": BASE_NOTE + " 'Never diverge over any history' additionally rests on C16.R5/R6, C14.R6 and atomic message delivery (paper induction).",
+  "technique": "iterator-chain / helper-summary analysis for loop bounds + control-region comparison of update sites on MIR",
+  "engine": "E-STRUCT"},
+ "C19": {
+  "level": "Decides: the page is range(start, None, Ascending) -> take(n) -> map -> collect with n = min(limit.unwrap_or(10), 30) (constants evaluated by the compiler); "
+           "the cursor is the registry key function applied to the cursor's assets plus a constant suffix, mapped through an exclusive (or inclusive-with-suffix) raw bound; "
+           "the query forwards start_after (element-wise to_raw) and limit unchanged. Together with C16's injective, order-independent key this gives a duplicate-free, "
+           "complete walk for any page size; the corner of keys extending a cursor key by 0x00/0x01 bytes is an explicit assumption.",
+  "note": BASE_NOTE + " cw-storage-plus range/bound semantics.",
+  "technique": "iterator-chain shape + provenance of clamp and cursor on MIR, compiler-evaluated constants",
+  "engine": "E-STRUCT"},
 }
